@@ -17,7 +17,8 @@ ASSUMPTIONS = [
     "the kernel accepts at most len bytes per send (script well-formedness)",
     "TLS sockets: covered by the C18 harness (same accounting predicate), not here",
 ]
-TRUSTED = ["tools/cxx2lean.py (source-derived tie, DESIGN.md 0.7): clang-14 JSON AST, chrono unit semantics read from the desugared types, unbounded Int for signed arithmetic (overflow = UB), abstract memcmp / container queries",
+TRUSTED = ["tools/cxx2lean_eff.py (stage 2, DESIGN.md 0.7.1): world boundary (DoPoll, Interrupted, Clock::now, ::send, ::recv, SocketError opaque; handles dropped), C++ evaluation order, pointer = offset, string_view = (offset, length), objects = fields; Model/GenWorld.lean reads the model answers as C results",
+           "tools/cxx2lean.py (source-derived tie, DESIGN.md 0.7): clang-14 JSON AST, chrono unit semantics read from the desugared types, unbounded Int for signed arithmetic (overflow = UB), abstract memcmp / container queries",
            "vos shim (send/recv/poll interposition, virtual clock)", "FNV-1a hashes stand in for byte-wise comparison of large payloads"]
 ALL_TAGS = ["send.all", "send.try", "send.some", "short-write", "send.throw", "eintr", "recv.value", "recv.none",
             "recv.throw", "psend", "pclose", "pshutwr", "sync", "recv.unl", "recv.zero", "recv.lim", "sendto", "recvfrom"]
